@@ -10,11 +10,11 @@ def plan(tier, seed):
         units.append(dict(hfile='positions.py', fname='c13_linecol', args=(n,), split=(64 if n >= 7 else 0)))
     pats = ['ab', '[a-z]+', 'x+', 'b']
     for pi in range(len(pats)):
-        for di in range(6):
+        for di in range(8):
             units.append(dict(hfile='positions.py', fname='c13_regex', args=(di, pats[pi])))
     return dict(units=units,
                 bounds=dict(info, node_and_token_offsets='every expression and text token of every skeleton variant (same cover as C01)',
                             line_column='all strings of length 0..%d over {any ASCII letter, LF}: every offset' % nmax,
-                            regex='patterns %r on 6 document templates whose text leaves are TEXT holes' % pats),
+                            regex='patterns %r on 8 document templates whose text leaves are TEXT holes (two with duplicate leaves)' % pats),
                 outside=['regexes outside the modelled family (literal strings, one character class with +)', 'CR / CRLF line structure'],
                 assumptions=['true offset of a node = offset obtained by mirroring the serialisers over the parsed tree (round trip is C01)'])
